@@ -107,5 +107,5 @@ def resample_to_approx_dt(asig, target_dt=0.01, even=True):
     new_npts = factor * asig.npts
     if even:
         new_npts = 2 * int(new_npts / 2)
-    acc_interp = resample(asig.values, new_npts)
+    acc_interp = resample(asig.values, int(new_npts))
     return eqsig.AccSignal(acc_interp, asig.dt / factor)
